@@ -268,6 +268,14 @@ Proof.
   - destruct H as [c' [out' [j H]]]. rewrite H. cbn. split; [discriminate | intros [c0 X]; discriminate].
 Qed.
 
+Lemma state_after_steps cfg es c : state_after cfg es = Some c <-> steps cfg init_rctx es = Some c.
+Proof.
+  unfold state_after, run. pose proof (run_from_steps cfg es init_rctx 0 []) as H.
+  destruct (steps cfg init_rctx es) as [c'|].
+  - destruct H as [out' H]. rewrite H. split; intro X; inv_some; reflexivity.
+  - destruct H as [c' [out' [j H]]]. rewrite H. split; discriminate.
+Qed.
+
 Lemma accepts_document_steps cfg es :
   accepts_document cfg es = true <-> exists c, steps cfg init_rctx es = Some c /\ e_rule (cur c) = RTerminal.
 Proof.
@@ -596,3 +604,44 @@ Proof.
   - destruct (rstep cfg c e) as [[c1 o]|] eqn:R; [|discriminate]. apply rstep_counters in R as [R1 R2].
     apply IH in H as [H1 H2]. unfold object_usage, depth_after in *. cbn [count_if fold_right]. split; lia.
 Qed.
+
+(* ------------------------------------------------------------------------- *)
+(* Preorders, method-aware                                                    *)
+(* ------------------------------------------------------------------------- *)
+(* As [Preorder], but the restriction on arguments and on statements may depend on the method
+   whose cell is running (e.g. "the identifier argument of OnMarker is a marker identifier",
+   "BeginMarker occurs only in cells of OnMarker"). *)
+Section PreorderM.
+  Variable cfg : rcfg.
+  Variable R : rctx -> rctx -> Prop.
+  Variable Ra : meth -> args -> Prop.
+  Variable pok : meth -> prim -> bool.
+  Hypothesis R_refl : forall c, R c c.
+  Hypothesis R_trans : forall a b c, R a b -> R b c -> R a c.
+  Hypothesis prim_R : forall call,
+    (forall r m a c c', Ra m a -> call r m a c = Some c' -> R c c') ->
+    forall self m a p c c', Ra m a -> pok m p = true -> exec_prim cfg call self m a p c = Some c' -> R c c'.
+
+  Lemma exec_prims_RM call :
+    (forall r m a c c', Ra m a -> call r m a c = Some c' -> R c c') ->
+    forall self m a ps c c', Ra m a -> forallb (pok m) ps = true -> exec_prims cfg call self m a ps c = Some c' -> R c c'.
+  Proof.
+    intros Hcall self m a ps; induction ps as [|p ps IH]; intros c c' Ha Hok H; cbn [exec_prims] in H.
+    - inv_some. apply R_refl.
+    - cbn [forallb] in Hok. apply andb_true_iff in Hok as [Hp Hps].
+      destruct (exec_prim cfg call self m a p c) as [c1|] eqn:E; [|discriminate].
+      eapply R_trans; [eapply prim_R; eauto | eapply IH; eauto].
+  Qed.
+
+  Hypothesis table_ok : table_forall (fun _ m cell => has_reject cell || forallb (pok m) cell) = true.
+
+  Lemma call_rule_RM : forall f r m a c c', Ra m a -> call_rule f cfg r m a c = Some c' -> R c c'.
+  Proof.
+    intros f r m a c c' Ha H. revert Ha.
+    apply (call_rule_ind_gen cfg (fun _ m a c c' => Ra m a -> R c c')) with (f := f) (r := r) (m := m); [|exact H].
+    clear f r m a c c' H. intros call Hcall r m a c c' H Ha.
+    pose proof (table_forall_spec _ table_ok r m) as T. cbn beta in T. apply orb_true_iff in T as [T|T].
+    - rewrite exec_prims_reject in H by exact T. discriminate.
+    - eapply exec_prims_RM; eauto.
+  Qed.
+End PreorderM.
